@@ -192,6 +192,21 @@ def op_marsh():
     return [("v", (-1000, 1000))], f
 
 
+def op_marsh_py2(names):
+    """xdis.marsh.loads of Python-2 style data with interned strings ('t') and string back-references ('R')"""
+    def f(c):
+        import xdis.marsh as MS
+        data = [ord("(")] + [len(names) + 2, 0, 0, 0]
+        for nm in names:
+            b = nm.encode()
+            data += [ord("t"), len(b), 0, 0, 0] + list(b)
+        data += [ord("R"), 0, 0, 0, 0]
+        data += [ord("R"), len(names) - 1, 0, 0, 0]
+        data[10] = c   # first character of the first interned string: symbolic
+        return _canon(MS.loads(mkbytes(data)))
+    return [("c", (0x61, 0x62))], f
+
+
 def op_load_code_default():
     def f(p0):
         import xdis.unmarshal as U
@@ -215,6 +230,7 @@ def operations():
         "dis-39-classic": op_dis((3, 9), "classic"), "dis-312-extended": op_dis((3, 12), "extended"),
         "disco-27-classic": op_disco((2, 7), "classic"), "disco-38-xasm": op_disco((3, 8), "xasm"),
         "marsh": op_marsh(), "load_code-default-args": op_load_code_default(),
+        "marsh-py2-A": op_marsh_py2(["os", "zeta", "alpha"]), "marsh-py2-B": op_marsh_py2(["sys", "beta"]),
     }
     return ops
 
@@ -289,9 +305,9 @@ def generate(tier, seed):
     obs = []
     for name, spec in ops.items():
         obs.append(frame_ob(name, spec, tier))
-    probes = ["load-final38", "load-interim36", "load-interim35", "load-unknown", "get_opcode-39", "std_api-311", "dis-39-classic",
+    probes = ["marsh-py2-B", "load-final38", "load-interim36", "load-interim35", "load-unknown", "get_opcode-39", "std_api-311", "dis-39-classic",
               "dis-312-extended", "disco-27-classic", "marsh", "load_code-default-args", "get_opcode_module-313", "load-host"]
-    prefixes = ["load-final38", "load-final27", "load-interim36", "load-unknown", "get_opcode-27pypy", "std_api-27", "dis-312-extended",
+    prefixes = ["marsh-py2-A", "load-final38", "load-final27", "load-interim36", "load-unknown", "get_opcode-27pypy", "std_api-27", "dis-312-extended",
                 "disco-38-xasm", "marsh", "load_code-default-args", "load-host"]
     for p in probes:
         obs.append(pair_ob(p, ops[p], p, ops[p], tier))   # P;P;P
